@@ -23,6 +23,7 @@ TWay    == Step(Ev.op = "way" /\ SendWhoareyou(Ev.n, Ev.p) /\ Len(wire') = Ev.i
 THs     == Step(Ev.op = "hs" /\ SendHandshake(Ev.n, Ev.p, Ev.m) /\ Len(wire') = Ev.i
                 /\ (Ev.out = "record") = wire'[Ev.i].rs)
 TTamper == Step(Ev.op = "tamper" /\ Tamper(Ev.i, Ev.t))
+TForge  == Step(Ev.op = "forge" /\ Forge(Ev.i, Ev.m))
 (* Decode of packet i at node n, arriving from the address of node p *)
 TDeliver == Step(/\ Ev.op = "deliver" /\ Ev.i \in 1..Len(wire)
                  /\ Ev.out = Outcome(Ev.n, wire[Ev.i], Ev.p)
@@ -35,7 +36,7 @@ TExpire == Step(/\ Ev.op = "expireall"
 
 TraceInit == /\ sess = All(NoSess) /\ chal = All(NoChal) /\ unk = All(0) /\ got = All(NoChal) /\ knows = All(FALSE)
              /\ wire = <<>> /\ fresh = 1 /\ sids = [x \in {} |-> 0] /\ cids = [x \in {} |-> 0] /\ log = {} /\ l = 1
-TraceNext == TInit \/ TMsg \/ TWay \/ THs \/ TTamper \/ TDeliver \/ TReset \/ TExpire
+TraceNext == TInit \/ TMsg \/ TWay \/ THs \/ TTamper \/ TForge \/ TDeliver \/ TReset \/ TExpire
 TraceSpec == TraceInit /\ [][TraceNext]_<<vars, l>>
 
 TraceAccepted == TLCGet("stats").diameter - 1 = Len(Trace)
